@@ -711,7 +711,14 @@ func (l *lowerer) grpcEndpoint(m *Method) *dt.Node {
 		}
 		b = append(b, dt.N("Metadata").With(mb...))
 	}
-	if g.Code != "" || len(g.Headers) > 0 || len(g.Trailers) > 0 {
+	if len(g.Message) > 0 {
+		var mb []*dt.Node
+		for _, n := range g.Message {
+			mb = append(mb, dt.N("Attribute", dt.S(n)))
+		}
+		b = append(b, dt.N("Message").With(mb...))
+	}
+	if g.Code != "" || len(g.Headers) > 0 || len(g.Trailers) > 0 || len(g.RespMessage) > 0 {
 		code := g.Code
 		if code == "" {
 			code = "CodeOK"
@@ -731,6 +738,13 @@ func (l *lowerer) grpcEndpoint(m *Method) *dt.Node {
 				tb = append(tb, dt.N("Attribute", dt.S(mapName(p))))
 			}
 			rb = append(rb, dt.N("Trailers").With(tb...))
+		}
+		if len(g.RespMessage) > 0 {
+			var mb []*dt.Node
+			for _, n := range g.RespMessage {
+				mb = append(mb, dt.N("Attribute", dt.S(n)))
+			}
+			rb = append(rb, dt.N("Message").With(mb...))
 		}
 		if len(rb) > 0 {
 			n.With(rb...)
